@@ -18,9 +18,10 @@ from datetime import datetime, timedelta, timezone
 from fractions import Fraction
 
 sys.path.insert(0, os.path.dirname(os.path.abspath(__file__)))
-from lib import Check, guarded, zlit, blit, listlit   # noqa: E402
+from lib import Check, guarded, zlit, blit, listlit, REPO   # noqa: E402
 import c14 as G                                        # noqa: E402  literals / builders shared with C14
 import c13 as W                                        # noqa: E402  the harness's own WKT tokenizer
+import gen_archive                                     # noqa: E402  translator tie (ArchiveGen.v / ArchiveGenEq.v)
 
 logging.disable(logging.CRITICAL)
 warnings.filterwarnings('ignore')
@@ -474,6 +475,7 @@ def trunc_map(keys):
 def main():
     ck = Check('C20')
     ck.build_theories(['theories/Props/C20.vo', 'theories/Corr/ArchiveK.vo'])
+    rep = gen_archive.main(REPO, os.path.join(ck.rundir, 'ArchiveGen.v')); ck.gen('ArchiveGen.v', rep, 'ArchiveGenEq.v')
     ck.props('Props/C20.v')
     rng = ck.rng
     quick = ck.tier == 'quick'
